@@ -55,6 +55,9 @@ def sig_of(s):
             "dslot": _join(s, lambda d: d["proposal"]["dslot"]), "graffiti": _join(s, lambda d: d["graffiti"]),
             "nodeclient": _join(s, lambda d: d["nodeclient"]), "auction": _join(s, lambda d: d["auction"]["kind"]),
             "unblind_all": s["cfg"]["unblindAll"], "sign": _join(s, lambda d: d["sign"]),
+            # what stands behind the auctioneer interface: opaque (scripted) or the real block relay + strategy
+            "strategy": s["cfg"].get("strategy", "opaque"), "conf": ",".join(str(r) for r in s["cfg"].get("conf", [])),
+            "bids": _join(s, lambda d: ",".join(d.get("bids", []))), "auction_account": _join(s, lambda d: d.get("aacct", "na")),
             "submit": _join(s, lambda d: d["submit"]), "relays": _join(s, lambda d: ",".join(d["relays"]))}
 
 
@@ -84,6 +87,9 @@ def nontrivial(s, rows):
             return True
         if (d["graffiti"] == "err" and "Graffiti" in evs) or (d["nodeclient"] == "err" and "NodeClient" in evs) \
                 or (d["auction"]["kind"] == "err" and "Auction" in evs):
+            return True
+        # no relay bids were obtained (error, nothing that names a relay with a bid, neither results nor error)
+        if any(r.get("ev") == "Auction" and (r.get("out") != "results" or not r.get("providers")) for r in per[i]):
             return True
     return False
 
@@ -145,7 +151,35 @@ def shape(s):
     return tuple(sorted(f))
 
 
+def wired(s):
+    return s["cfg"].get("strategy", "opaque") != "opaque"
+
+
+def wshape(s):
+    """What a wired history (real block relay + builder bid strategy behind the proposer) exercises."""
+    f = {s["cfg"]["strategy"]}
+    for i, d in enumerate(s["duties"]):
+        later = "later-" if i > 0 else ""
+        if d.get("aacct") == "err":
+            f.add(later + "account-lookup-fails")
+        bids = [b for b in d.get("bids", []) if b != "none"]
+        if not bids:
+            continue
+        if "silent" in bids and "bid" not in bids:
+            f.add(later + "silent-no-bid")         # a relay stays silent past the time-out, nobody bids
+        elif "bid" not in bids:
+            f.add(later + "answered-no-bid")       # 204 / errors only
+        elif "silent" in bids:
+            f.add(later + "silent-and-bid")
+        else:
+            f.add(later + "bid")
+    return tuple(sorted(f))
+
+
 def _stratum(s):
+    if wired(s):
+        return (s["cfg"]["strategy"], len(s["cfg"]["conf"]), s["cfg"]["unblindAll"],
+                tuple((d.get("aacct"), tuple(sorted(d.get("bids", []))), d["proposal"]["blinded"], _tags(d)) for d in s["duties"]))
     if s.get("sched"):
         # histories with a schedule: shape x what goes wrong in each duty object's calls
         return (shape(s), tuple(_tags(d) for d in s["duties"]), tuple(d["proposal"]["blinded"] for d in s["duties"]))
@@ -207,8 +241,14 @@ def _widen(rnd, s, sc):
         d["relays"] = [relays[perm[i]] for i in range(3)]
         d["auction"] = {"kind": d["auction"]["kind"], "all": [al[perm[i]] for i in range(3)],
                         "providers": [pr[perm[i]] for i in range(3)]}
+        if "bids" in d:
+            bids = list(d["bids"]) + ["none"] * (3 - len(d["bids"]))
+            d["bids"] = [bids[perm[i]] for i in range(3)]
         duties.append(d)
-    res = {"sc": sc, "salt": rnd.randrange(1, 1000000), "cfg": dict(s["cfg"]), "duties": duties}
+    cfg = dict(s["cfg"])
+    # the relays of the execution configuration (wired histories), renumbered like everything else
+    cfg["conf"] = sorted(i + 1 for i in range(3) if (perm[i] + 1) in cfg.get("conf", []))
+    res = {"sc": sc, "salt": rnd.randrange(1, 1000000), "cfg": cfg, "duties": duties}
     if s.get("sched"):
         res["sched"] = s["sched"]
     return res
@@ -244,10 +284,14 @@ def scenarios(tier, pool):
     f_ov = gen("Scen_Proposer_ovl.cfg", "scen-ovl", num=walks, depth=160)
     #   ovlr:   the same, every duty object is proposed (no drops, Prepare healthy): Propose overlapping Propose
     f_or = gen("Scen_Proposer_ovlr.cfg", "scen-ovlr", num=walks // 2, depth=160)
+    # wired: the auction as a component - the real block relay service and each sibling builder bid strategy (best,
+    # deadline) behind the proposer, relays that bid / have no bid / fail / stay silent; two duties on one instance
+    f_wi = gen("Scen_Proposer_wired.cfg", "scen-wired", exhaustive=True, timeout=900, workers=2)
     main, r3, h2 = _legacy(f_main.result()), _legacy(f_r3.result()), _legacy(f_h2.result())
     h3 = _legacy(f_h3.result()) if f_h3 else []
     rp, ins, ov, ovr = f_rp.result(), f_in.result(), f_ov.result(), f_or.result()
-    total = len(main) + len(r3) + len(h2) + len(h3) + len(rp) + len(ins) + len(ov) + len(ovr)
+    wi = _legacy(f_wi.result())
+    total = len(main) + len(r3) + len(h2) + len(h3) + len(rp) + len(ins) + len(ov) + len(ovr) + len(wi)
     if not thorough:
         main = _sample(rnd, main, 2000)
         r3 = _sample(rnd, r3, 1000)
@@ -256,7 +300,9 @@ def scenarios(tier, pool):
         ins = _sample(rnd, ins, 500)
         ov = _sample(rnd, ov, 500)
         ovr = _sample(rnd, ovr, 300)
+        wi = _sample(rnd, wi, 700)
     else:
+        wi = _sample(rnd, wi, 6000)
         h3 = _sample(rnd, h3, 3000)
         ins = _sample(rnd, ins, 6000)
         ov = _sample(rnd, ov, 6000)
@@ -264,15 +310,19 @@ def scenarios(tier, pool):
     out = []
     # histories first: a hung call costs the driver its watchdog time, the sooner it starts the better
     ov = ov + ovr
-    for s in rp + ins + ov + h2 + h3 + main + r3:
+    for s in wi + rp + ins + ov + h2 + h3 + main + r3:
         out.append(_widen(rnd, s, len(out) + 1))
     shapes = {}
+    for s in wi:
+        for f in wshape(s):
+            shapes["wired-" + f] = shapes.get("wired-" + f, 0) + 1
     for s in rp + ins + ov:
         for f in shape(s):
             shapes[f] = shapes.get(f, 0) + 1
-    vf.log("scenarios: %d of the %d paths TLC produced (%d histories of 2 duties, %d of 3 duties one after the other; "
+    vf.log("scenarios: %d of the %d paths TLC produced (%d wired histories: real block relay + best / deadline builder bid "
+           "strategy behind the proposer; %d histories of 2 duties, %d of 3 duties one after the other; "
            "%d + %d + %d histories with Prepare / Propose scheduled apart: %s)" % (
-               len(out), total, len(h2), len(h3), len(rp), len(ins), len(ov),
+               len(out), total, len(wi), len(h2), len(h3), len(rp), len(ins), len(ov),
                ", ".join("%s %d" % kv for kv in sorted(shapes.items()))))
     return out, shapes
 
@@ -295,22 +345,34 @@ def observations():
         vf.log("the driver's watchdog recorded %d Propose call(s) that did not return (Hung)" % obs["hung"])
 
 
+M, A = "Memo_Proposer", "Auction_Proposer"
 CONTROLS = [
-    # (cfg, expected): a design that carries state between calls / shares it between overlapping calls must be
+    # (module, cfg, expected): a design that carries state between calls / shares it between overlapping calls must be
     # rejected by OnlyDutySigner where the state matters, and by nothing where it does not
-    ("Memo_Proposer.cfg", "OnlyDutySigner"),        # per-slot memo, a slot prepared again for another validator
-    ("Memo_Proposer_fresh.cfg", None),              # ... right on every fresh instance (one duty object)
-    ("Memo_Proposer_same.cfg", None),               # ... and for the same duty prepared again
-    ("Shared_Proposer.cfg", "OnlyDutySigner"),      # duty noted in the service, two Proposes overlapping
-    ("Shared_Proposer_seq.cfg", None),              # ... right when calls never overlap
+    (M, "Memo_Proposer.cfg", "OnlyDutySigner"),        # per-slot memo, a slot prepared again for another validator
+    (M, "Memo_Proposer_fresh.cfg", None),              # ... right on every fresh instance (one duty object)
+    (M, "Memo_Proposer_same.cfg", None),               # ... and for the same duty prepared again
+    (M, "Shared_Proposer.cfg", "OnlyDutySigner"),      # duty noted in the service, two Proposes overlapping
+    (M, "Shared_Proposer_seq.cfg", None),              # ... right when calls never overlap
+    # the auction as a component: a builder bid strategy that hands back neither results nor an error when its
+    # time-out passes with a silent relay and no bid (and a caller that dereferences it) must be rejected by
+    # DegradesNotSkips - for each sibling strategy - and by nothing where every relay answers / the slip sits in
+    # the strategy that is not configured
+    (A, "Auction_Proposer.cfg", "DegradesNotSkips"),            # the slip in `best`
+    (A, "Auction_Proposer_deadline.cfg", "DegradesNotSkips"),   # the slip in `deadline`
+    (A, "Auction_Proposer_answering.cfg", None),                # ... right while every relay answers (bid / 204 / error)
+    (A, "Auction_Proposer_other.cfg", None),                    # ... and when the other strategy is configured
 ]
 
 
-def controls():
-    """Vacuity self-check of the history / overlap rules at the level of the model (spec/Memo_Proposer.tla)."""
+def controls(which):
+    """Vacuity self-check at the level of the model: of the history / overlap rules (spec/Memo_Proposer.tla) and of
+    the auction component (spec/Auction_Proposer.tla)."""
     t = 0.0
-    for cfg, expected in CONTROLS:
-        r = vf.tlc(PID, "control-" + cfg.replace(".cfg", ""), "Memo_Proposer", cfg, workers=2, timeout=600)
+    for module, cfg, expected in CONTROLS:
+        if module != which:
+            continue
+        r = vf.tlc(PID, "control-" + cfg.replace(".cfg", ""), module, cfg, workers=2, timeout=600)
         t += r["wall_s"]
         if expected is None:
             if r["timed_out"] or not r["ok"]:
@@ -319,8 +381,13 @@ def controls():
         elif r["timed_out"] or r["kind"] != "invariant" or r["violated"] != expected:
             raise vf.Broken("control %s: the design is not rejected by %s (%s %s); see %s/tlc.out"
                             % (cfg, expected, r["kind"], r["violated"], r["dir"]))
-    vf.log("TLC Memo_Proposer: the per-slot memo and the duty noted in the service are rejected by OnlyDutySigner exactly "
-           "where state is carried over / calls overlap, and pass on a fresh instance / one call at a time (%.1fs)" % t)
+    if which == M:
+        vf.log("TLC Memo_Proposer: the per-slot memo and the duty noted in the service are rejected by OnlyDutySigner exactly "
+               "where state is carried over / calls overlap, and pass on a fresh instance / one call at a time (%.1fs)" % t)
+    else:
+        vf.log("TLC Auction_Proposer: a builder bid strategy (best, deadline) that answers neither results nor an error when a "
+               "relay stays silent past its time-out is rejected by DegradesNotSkips, and passes while every relay answers / "
+               "when the other strategy is configured (%.1fs)" % t)
 
 
 def run(tier):
@@ -336,13 +403,16 @@ def run(tier):
         "a fake attributes an interface call to the Prepare / Propose whose context the code passed to it",
     ]
     thorough = tier == "thorough"
-    with ThreadPoolExecutor(max_workers=10) as pool:
+    with ThreadPoolExecutor(max_workers=16) as pool:
         mcs = [pool.submit(vf.tlc_exhaustive, PID, "Proposer", "MC_Proposer.cfg", workers=4),
                # every duty of every history terminates (liveness under weak fairness) - smaller constants
                pool.submit(vf.tlc_exhaustive, PID, "Proposer", "MC_Proposer_live.cfg", workers=2),
                # the instance: duty objects side by side (one slot, two validators), two calls at a time
-               pool.submit(vf.tlc_exhaustive, PID, "Proposer", "MC_Proposer_inst.cfg", workers=4)]
-        ctl = pool.submit(controls)
+               pool.submit(vf.tlc_exhaustive, PID, "Proposer", "MC_Proposer_inst.cfg", workers=4),
+               # the auction as a component: block relay + each sibling builder bid strategy behind the proposer, relays
+               # that bid / have no bid / fail / stay silent, two duties on one instance
+               pool.submit(vf.tlc_exhaustive, PID, "Proposer", "MC_Proposer_auction.cfg", workers=4)]
+        ctl = [pool.submit(controls, M), pool.submit(controls, A)]
         sc, shapes = scenarios(tier, pool)
         if thorough:
             mcs += [pool.submit(vf.tlc_exhaustive, PID, "Proposer", "MC_Proposer_big.cfg", workers=6, timeout=2400),
@@ -351,7 +421,8 @@ def run(tier):
                     pool.submit(vf.tlc_exhaustive, PID, "Proposer", "MC_Proposer_inst3.cfg", workers=4, timeout=2400)]
         for f in mcs:
             v.add_mc(f.result())
-        ctl.result()
+        for f in ctl:
+            f.result()
     vf.conformance(v, sc, driver, "Trace_Proposer", "Trace_Proposer.cfg", sig_of, nontrivial,
                    chunk=2500 if thorough else None)
     observations()
